@@ -267,33 +267,103 @@ func runC02Mat(c *Ctx) {
 				continue
 			}
 			c.Sites++
-			v := ret.Results[0]
-			// named result spilled by defer: look through the load of the result cell
-			v = throughResultCell(v, b)
 			disc := fmt.Sprintf("return@%s", b.Comment)
-			if isNilConst(v) {
-				ok := edgeImplies(lenCall, b, true)
-				c.Check(ok, "C02-MAT", name, disc+":nil", ret.Pos(), "nil returned only on the 'buffer is empty' edge", "nil is returned on a path where the buffer may hold clauses")
-				continue
+			// the candidates for the returned value, each with the edge (pred -> at) it arrives through;
+			// pred == nil: decided in block `at` itself
+			type cand struct {
+				v        ssa.Value
+				pred, at *ssa.BasicBlock
 			}
-			okShape := false
-			detail := "returned error is not errors.New(strings.TrimSuffix(buffer.String(), separator))"
-			if mi, isMI := v.(*ssa.MakeInterface); isMI {
-				v = mi.X
+			var cands []cand
+			v := throughResultCell(ret.Results[0], b)
+			switch x := v.(type) {
+			case *ssa.Phi:
+				for i, e := range x.Edges {
+					cands = append(cands, cand{e, x.Block().Preds[i], x.Block()})
+				}
+			case *ssa.UnOp:
+				// named result spilled into a cell (deferred release): every store to the cell, plus the zero
+				// value on the paths without a store
+				al, isAl := x.X.(*ssa.Alloc)
+				if x.Op == token.MUL && isAl {
+					var storeBlocks []*ssa.BasicBlock
+					for _, r := range refs(al) {
+						if st, ok := r.(*ssa.Store); ok && st.Addr == ssa.Value(al) {
+							cands = append(cands, cand{st.Val, nil, st.Block()})
+							storeBlocks = append(storeBlocks, st.Block())
+						}
+					}
+					// the implicit nil: the non-empty side must not reach the return without a store
+					okNil := len(storeBlocks) > 0
+					for _, s := range nonEmptySuccs(lenCall) {
+						reached := false
+						seen := map[*ssa.BasicBlock]bool{}
+						var walk func(q *ssa.BasicBlock)
+						walk = func(q *ssa.BasicBlock) {
+							if seen[q] || reached {
+								return
+							}
+							seen[q] = true
+							for _, sb := range storeBlocks {
+								if sb == q {
+									return
+								}
+							}
+							if q == b {
+								reached = true
+								return
+							}
+							for _, n := range q.Succs {
+								walk(n)
+							}
+						}
+						walk(s)
+						if reached {
+							okNil = false
+						}
+					}
+					c.Check(okNil, "C02-MAT", name, disc+":nil", ret.Pos(), "the result stays nil only on the 'buffer is empty' side", "the named result can stay nil on a path where the buffer may hold clauses")
+				} else {
+					cands = append(cands, cand{v, nil, b})
+				}
+			default:
+				cands = append(cands, cand{v, nil, b})
 			}
-			if call, isCall := v.(*ssa.Call); isCall && calleeName(&call.Call) == "errors.New" {
-				if ts, ok := call.Call.Args[0].(*ssa.Call); ok && calleeName(&ts.Call) == "strings.TrimSuffix" {
-					s0, isS := ts.Call.Args[0].(*ssa.Call)
-					sep, isSep := ts.Call.Args[1].(*ssa.UnOp)
-					if isS && calleeName(&s0.Call) == "(*strings.Builder).String" && isSep {
-						if g, ok := sep.X.(*ssa.Global); ok && g.Name() == "ErrEndFlag" {
-							okShape = true
-							detail = "errors.New(strings.TrimSuffix(buf.String(), ErrEndFlag))"
+			for ci, cd := range cands {
+				v := cd.v
+				implies := func(want bool) bool {
+					if cd.pred != nil {
+						return edgeImpliesEdge(lenCall, cd.pred, cd.at, want)
+					}
+					return edgeImplies(lenCall, cd.at, want)
+				}
+				d := disc
+				if len(cands) > 1 {
+					d = fmt.Sprintf("%s#%d", disc, ci)
+				}
+				if isNilConst(v) {
+					c.Check(implies(true), "C02-MAT", name, d+":nil", ret.Pos(), "nil returned only on the 'buffer is empty' edge", "nil is returned on a path where the buffer may hold clauses")
+					continue
+				}
+				okShape := false
+				detail := "returned error is not errors.New(strings.TrimSuffix(buffer.String(), separator))"
+				if mi, isMI := v.(*ssa.MakeInterface); isMI {
+					v = mi.X
+				}
+				if call, isCall := v.(*ssa.Call); isCall && calleeName(&call.Call) == "errors.New" {
+					if ts, ok := call.Call.Args[0].(*ssa.Call); ok && calleeName(&ts.Call) == "strings.TrimSuffix" {
+						s0, isS := ts.Call.Args[0].(*ssa.Call)
+						sep, isSep := ts.Call.Args[1].(*ssa.UnOp)
+						if isS && calleeName(&s0.Call) == "(*strings.Builder).String" && isSep {
+							if g, ok := sep.X.(*ssa.Global); ok && g.Name() == "ErrEndFlag" {
+								okShape = true
+								detail = "errors.New(strings.TrimSuffix(buf.String(), ErrEndFlag))"
+							}
 						}
 					}
 				}
+				c.Check(okShape && implies(false), "C02-MAT", name, d+":error", ret.Pos(), detail, detail+" or the error is returned on the 'buffer is empty' edge")
 			}
-			c.Check(okShape && edgeImplies(lenCall, b, false), "C02-MAT", name, disc+":error", ret.Pos(), detail, detail+" or the error is returned on the 'buffer is empty' edge")
 		}
 	}
 	// every Valid trace that called a walker ends by returning getError's result
@@ -358,6 +428,75 @@ func throughResultCell(v ssa.Value, b *ssa.BasicBlock) ssa.Value {
 		return last
 	}
 	return v
+}
+
+// nonEmptySuccs: the successor blocks entered when the buffer was found non-empty.
+func nonEmptySuccs(lenCall *ssa.Call) []*ssa.BasicBlock {
+	var out []*ssa.BasicBlock
+	for _, r := range refs(lenCall) {
+		bin, ok := r.(*ssa.BinOp)
+		if !ok {
+			continue
+		}
+		if k, ok := constInt(bin.Y); !ok || k != 0 {
+			continue
+		}
+		for _, r2 := range refs(bin) {
+			iff, ok := r2.(*ssa.If)
+			if !ok {
+				continue
+			}
+			switch bin.Op {
+			case token.EQL:
+				out = append(out, iff.Block().Succs[1])
+			case token.NEQ, token.GTR:
+				out = append(out, iff.Block().Succs[0])
+			}
+		}
+	}
+	return out
+}
+
+// edgeImpliesEdge: like edgeImplies for a value that arrives through the edge pred -> at (a phi operand).
+func edgeImpliesEdge(lenCall *ssa.Call, pred, at *ssa.BasicBlock, want bool) bool {
+	if edgeImplies(lenCall, pred, want) {
+		return true
+	}
+	// pred is the testing block itself and `at` is its successor on the wanted side
+	for _, r := range refs(lenCall) {
+		bin, ok := r.(*ssa.BinOp)
+		if !ok {
+			continue
+		}
+		if k, ok := constInt(bin.Y); !ok || k != 0 {
+			continue
+		}
+		for _, r2 := range refs(bin) {
+			iff, ok := r2.(*ssa.If)
+			if !ok || iff.Block() != pred {
+				continue
+			}
+			var emptySucc, nonEmptySucc *ssa.BasicBlock
+			switch bin.Op {
+			case token.EQL:
+				emptySucc, nonEmptySucc = pred.Succs[0], pred.Succs[1]
+			case token.NEQ, token.GTR:
+				emptySucc, nonEmptySucc = pred.Succs[1], pred.Succs[0]
+			default:
+				continue
+			}
+			if emptySucc == nonEmptySucc {
+				continue
+			}
+			if want && emptySucc == at {
+				return true
+			}
+			if !want && nonEmptySucc == at {
+				return true
+			}
+		}
+	}
+	return false
 }
 
 // edgeImplies: block b is only reachable through the edge on which `lenCall == 0` is
